@@ -1,5 +1,5 @@
 (* Proofs/PingRefine.v — the waiter-table model refines the table-free reference machine:
-   for every well-formed history (young throughout; repaired code or no failed send) the reference
+   for every well-formed history (repaired code, or no failed send) the reference
    machine accepts the abstracted history and ends in the abstraction of the model's state; and
    the number of table entries is the number of entries the reference says are needed. *)
 From PV Require Import Base.Prelude Model.Ping Model.PingTrace Model.PingAbs Spec.PingSpec.
@@ -68,7 +68,7 @@ Qed.
 Lemma PK_step fx s e s' : PK s -> step fx s e = Ok s' -> PK s'.
 Proof.
   unfold PK. intros H Hs. step_cases Hs; cbn [pings set_pings]; rewrite ?pset_keys, ?Ep, ?Epq; auto.
-  apply nodup_snoc; [exact H|]. apply pget_none_notin. exact Ep.
+  all: apply nodup_snoc; [exact H|apply pget_none_notin; exact Ep].
 Qed.
 
 Lemma In_pget l p pg : NoDup (map fst l) -> In (p, pg) l -> pget l p = Some pg.
@@ -127,12 +127,15 @@ Qed.
 (* ------------------------------------------------------------------ *)
 (* one step *)
 
-Theorem refine_step fx n s e s' :
-  Good n s -> PK s -> young s -> owned_by_waiting s ->
+Theorem refine_step fx s e s' :
+  Good s -> PK s -> owned_by_waiting s ->
   step fx s e = Ok s' -> sstep (absst s) (absev s e) = Some (absst s').
 Proof.
-  intros [HI HI2 HE] Hpk Hy Ho H. pose proof (inv_entry _ HI) as Hent.
-  unfold absst. step_cases H; cbn [absev sstep pings set_pings]; rewrite ?map_pset.
+  intros [HI HE] Hpk Ho H. pose proof (inv_entry _ HI) as Hent.
+  unfold absst. step_cases H; cbn [absev sstep pings set_pings]; rewrite ?map_pset, ?Efull, ?Eal; cbn [sstep].
+  - (* Begin, table full *)
+    rewrite sget_abs, Ep. cbn [option_map]. rewrite sset_absent by (rewrite sget_abs, Ep; reflexivity).
+    reflexivity.
   - (* Begin *)
     rewrite sget_abs, Ep. cbn [option_map]. rewrite sset_absent by (rewrite sget_abs, Ep; reflexivity).
     reflexivity.
@@ -165,16 +168,15 @@ Qed.
 (* ------------------------------------------------------------------ *)
 (* whole histories *)
 
-Theorem refine_run_gen fx n tr : forall s s',
-  Good n s -> PK s -> owned_by_waiting s -> (fx = true \/ known_C19_sendfail tr = false) ->
-  always fx young s tr -> run fx s tr = Ok s' ->
+Theorem refine_run_gen fx tr : forall s s',
+  Good s -> PK s -> owned_by_waiting s -> (fx = true \/ known_C19_sendfail tr = false) ->
+  run fx s tr = Ok s' ->
   srun (absst s) (abs_trace fx s tr) = Some (absst s').
 Proof.
-  induction tr as [|e r IH]; intros s s' G Hpk Ho Hfx A; cbn [run abs_trace srun].
+  induction tr as [|e r IH]; intros s s' G Hpk Ho Hfx; cbn [run abs_trace srun].
   - intros E; inversion E; subst. reflexivity.
   - destruct (step fx s e) as [s1| | |] eqn:E; try discriminate. intros H.
-    pose proof (always_head _ _ _ _ A) as Y. pose proof (always_step _ _ _ _ _ _ A E) as A1.
-    rewrite (refine_step fx n s e s1 G Hpk Y Ho E).
+    rewrite (refine_step fx s e s1 G Hpk Ho E).
     assert (Hfx1 : fx = true \/ failed_begin e = false).
     { destruct Hfx as [?|Hk]; [auto|]. right. cbn [known_C19_sendfail existsb] in Hk.
       apply orb_false_iff in Hk. tauto. }
@@ -182,18 +184,18 @@ Proof.
     { destruct Hfx as [?|Hk]; [auto|]. right. cbn [known_C19_sendfail existsb] in Hk.
       apply orb_false_iff in Hk. tauto. }
     apply IH; auto.
-    + eapply Good_step; eauto. eapply always_head; eauto.
+    + eapply Good_step; eauto.
     + eapply PK_step; eauto.
     + eapply owned_step; eauto. apply G.
 Qed.
 
 Theorem refine_run fx n tr s : n < 65536 ->
-  run fx (init n) tr = Ok s -> always fx young (init n) tr ->
+  run fx (init n) tr = Ok s ->
   (fx = true \/ known_C19_sendfail tr = false) ->
   srun [] (abs_trace fx (init n) tr) = Some (absst s).
 Proof.
-  intros Hn H A Hfx. change (@nil (nat * call)) with (absst (init n)).
-  apply (refine_run_gen fx n tr (init n) s); auto.
+  intros Hn H Hfx. change (@nil (nat * call)) with (absst (init n)).
+  apply (refine_run_gen fx tr (init n) s); auto.
   - apply Good_init; exact Hn.
   - constructor.
   - intros i q; cbn; discriminate.
@@ -252,12 +254,12 @@ Proof.
 Qed.
 
 Theorem sizes_agree fx n tr s : n < 65536 ->
-  run fx (init n) tr = Ok s -> always fx young (init n) tr ->
+  run fx (init n) tr = Ok s ->
   (fx = true \/ known_C19_sendfail tr = false) ->
   entries (absst s) = size s.
 Proof.
-  intros Hn H A Hfx. unfold entries, absst, size. rewrite entries_abs.
-  pose proof (table_exact fx n tr s Hn H A Hfx) as TE.
+  intros Hn H Hfx. unfold entries, absst, size. rewrite entries_abs.
+  pose proof (table_exact fx n tr s Hn H Hfx) as TE.
   assert (Hpk : PK s).
   { revert H. apply (run_ind fx PK); [constructor|]. intros; eapply PK_step; eauto. }
   pose proof (inv_nodup _ (Inv_run _ _ _ _ Hn H)) as Hnd.
